@@ -122,3 +122,15 @@ def monitor(case, obs):
 
 def nontrivial(case, obs):
     return any(ev[0] == "api" and ev[1] in ("force_quit", "raise_exit") for ev, ctx in obs["xlog"]) and sum(1 for e in obs["log"] if e[0] == "H") >= 2
+
+
+def classify(case, obs, verdict, model):
+    fl = (model or {}).get("flags", [])
+    if "K6a" in fl and verdict.startswith("the last screen was closed (the stack is empty)"): return "K6"
+    return None
+
+
+def run_witness(wit):
+    case = with_cc(dict(op="machine", **wit))
+    v = monitor(case, run_impl(case))
+    return v is not None and v.startswith("the last screen was closed (the stack is empty)")
